@@ -1308,8 +1308,11 @@ def rule_painted_line_terminated(ctx, crate, rule="R-PAINTED-LINE-TERMINATED", k
     done_edges = set()
     fillers = [c for c in tl_calls(pb, "write_str") if c.bb not in paint_bbs and pb.in_loop(c.bb) and pb.slice_args(c, [1]).has_call(r"(alloc|std|core)::str::<impl str>::repeat")]
     for nx in pb.calls(r"std::iter::Iterator::next"):
-        if not pb.slice_args(nx, [0]).has_call(r"std::iter::Iterator::enumerate"):
+        nsl = pb.slice_args(nx, [0])
+        if not nsl.has_call(r"std::iter::Iterator::enumerate") and not nsl.has_call(r"std::iter::Iterator::peekable"):
             continue
+        it_ls = {tl for a_ in nx.args[:1] if operand_local(a_) is not None for tl, tp in pb.ref_origins().get(operand_local(a_), ())} | \
+                ({operand_local(nx.args[0])} if nx.args and operand_local(nx.args[0]) is not None else set())
         tied = False
         for f in fillers:
             for sb, t in pb.switches():
@@ -1319,6 +1322,12 @@ def rule_painted_line_terminated(ctx, crate, rule="R-PAINTED-LINE-TERMINATED", k
                 lens = [k for k in sl.calls if k.matches(r"std::vec::Vec::<T, A>::len", r"core::slice::<impl \[T\]>::len") and pb.slice_args(k, [0]).has_field("lines")]
                 if lens and any(k.bb == nx.bb for k in sl.calls) and ("binop", "Eq") in sl.atoms:
                     tied = True
+                # or: "nothing follows" asked of the very iterator the loop consumes (`remaining.peek().is_none()`)
+                for k in sl.calls:
+                    if k.matches(r"std::iter::Peekable::<I>::peek") and k.args and operand_local(k.args[0]) is not None:
+                        pk = {tl for tl, tp in pb.ref_origins().get(operand_local(k.args[0]), ())} | {operand_local(k.args[0])}
+                        if pk & it_ls and (sl.has_call(r"std::option::Option::<T>::is_none") or sl.has_call(r"std::option::Option::<T>::is_some")):
+                            tied = True
         if not tied:
             continue
         for sb, t in pb.switches():
@@ -1327,6 +1336,8 @@ def rule_painted_line_terminated(ctx, crate, rule="R-PAINTED-LINE-TERMINATED", k
                     for v, tb in t["targets"]:
                         if v == 0:
                             done_edges.add((sb, tb))
+                    if [v for v, tb in t["targets"]] == [1] and t.get("otherwise") is not None:
+                        done_edges.add((sb, t["otherwise"]))      # `while let Some(..) = it.next()`: None is the otherwise edge
 
     def feasible_succ(bb, env):
         t = pb.term(bb)
@@ -1478,7 +1489,7 @@ def rule_counted_newline_row_followed(ctx, crate, rule="R-FRAME-ENDS-ON-COUNTED-
         if te:
             err_blocks |= pb.edge_region((te[0], te[2]))
     n = 0
-    for k, c in enumerate(pads):
+    for c in pads:
         # counted? the loop the padding is written in is driven by a row count that also reaches the commit
         drivers = [nx for nx in pb.calls(r"std::iter::Iterator::next") if c.bb in pb.reach_after(nx.bb) and nx.bb in pb.reach_after(c.bb)]
         counted = False
@@ -1488,6 +1499,7 @@ def rule_counted_newline_row_followed(ctx, crate, rule="R-FRAME-ENDS-ON-COUNTED-
                 counted = True
         if not counted:
             continue
+        k = n
         n += 1
         seen = pb.reach([c.target] if c.target is not None else [], avoid={x.bb for x in paints} | err_blocks)
         leak = sorted(x.bb for x in flushes if x.bb in seen)
